@@ -24,8 +24,15 @@ is compared with CPython on every run by `harness/lib/durationcorr.py`).
   `space_has_no_guard_witness`), the guard of the inexact path can never fire (`inexact_guard_dead`), a text with two
   numbers is refused by the number-space-unit path, and with no other pattern matching the duration comes out unparsed:
   there is no merged-duration parser in the Python tree (`space_needs_one_number`, `merged_duration_unparsed`);
-* the unit letter is the FIRST CHARACTER of the code: `3 decades` is `P31`, `3 fortnights` `P32`, `3 weekends` `P3W` worth
-  two days each (`unit_first_character_witness`);
+* the unit letter is the FIRST CHARACTER of the code in the tree before `fix: duration unit codes`: `3 decades` is `P31`,
+  `3 fortnights` `P32`, `3 weekends` `P3W` worth two days each (`unit_first_character_witness`, a labelled pre-fix
+  regression; likewise `float_value_inexact_witness` for the tree before `fix: duration value`);
+* the two repaired variants (`Cfg.fixUnit`, `Cfg.fixValue`; the harness probes which one the tree follows): for ALL N a unit
+  code with a numeric prefix is multiplied out — N decades = `P(10N)Y`, N fortnights = `P(2N)W`, value unchanged = the
+  same number of seconds (`fixed_multiplied_code`, `fixed_decades`, `fixed_fortnights`), a weekend is `P<N>WE`
+  (`fixed_weekend`), every code that starts with a letter is written as before (all `*_exact` theorems hold in both
+  variants); the value is the exact product of the printed amount and the unit length whenever that is an integer below
+  2^53 (`fixed_value_exact`), `1.15 days` = 99360 (`fixed_instances`);
 * set parser: whatever sub-parser fires, both value strings are `Set: ` ++ TIMEX (`set_values`), the each-unit form yields
   the table's TIMEX or the same with every `1` turned into `2` (`each_unit_forms`), and an unparsed duration still
   "succeeds" with TIMEX `''` (`each_duration_unparsed_witness`).
@@ -35,12 +42,12 @@ open RTV.WF
 
 /-! ## the shared tail -/
 
-/-- Every successful result of every path has this shape (`x` = the float amount before `float_or_int`). -/
+/-- Every successful result of every path has this shape (`x` = the float amount before `float_or_int`; `timexOf` /
+`valueOf` are the two computations that have a repaired variant). -/
 theorem assemble_shape (cfg : Cfg) (x : Dbl) (sp : Str) (g : Bool) (t : Str) (v : Num)
     (h : assemble cfg (some x) sp g = .ok t v) :
     ∃ c rest secs, lookup cfg.unitMap sp = some (c :: rest) ∧ lookup cfg.unitValueMap sp = some secs ∧
-      t = [80] ++ (if isLessThanDay (c :: rest) then [84] else []) ++ numStr (floatOrInt x) ++ [c] ∧
-      mulNum (floatOrInt x) secs = some v := by
+      timexOf cfg (floatOrInt x) c rest = some t ∧ valueOf cfg (floatOrInt x) secs = some v := by
   unfold assemble at h
   simp only at h
   cases hu : lookup cfg.unitMap sp with
@@ -53,17 +60,28 @@ theorem assemble_shape (cfg : Cfg) (x : Dbl) (sp : Str) (g : Bool) (t : Str) (v 
       | nil => simp at h
       | cons c rest =>
         simp only at h
-        cases hv : lookup cfg.unitValueMap sp with
-        | none => simp [hv] at h
-        | some secs =>
-          simp only [hv] at h
-          cases hm : mulNum (floatOrInt x) secs with
-          | none => simp [hm] at h
-          | some v' =>
-            simp only [hm] at h
-            injection h with h1 h2
-            subst h1; subst h2
-            exact ⟨c, rest, secs, rfl, rfl, rfl, hm⟩
+        cases ht : timexOf cfg (floatOrInt x) c rest with
+        | none => simp [ht] at h
+        | some t' =>
+          simp only [ht] at h
+          cases hv : lookup cfg.unitValueMap sp with
+          | none => simp [hv] at h
+          | some secs =>
+            simp only [hv] at h
+            cases hm : valueOf cfg (floatOrInt x) secs with
+            | none => simp [hm] at h
+            | some v' =>
+              simp only [hm] at h
+              injection h with h1 h2
+              subst h1; subst h2
+              exact ⟨c, rest, secs, rfl, rfl, ht, hm⟩
+
+/-- before the fixes (`fixUnit = fixValue = false`): TIMEX = `P` ++ (`T` iff H / M / S) ++ amount ++ FIRST CHARACTER of the
+code, value = the Python product -/
+theorem shape_prefix (cfg : Cfg) (n : Num) (c : Nat) (rest : Str) (secs : Nat) (hfu : cfg.fixUnit = false) (hfv : cfg.fixValue = false) :
+    timexOf cfg n c rest = some ([80] ++ (if isLessThanDay (c :: rest) then [84] else []) ++ numStr n ++ [c]) ∧
+    valueOf cfg n secs = mulNum n secs := by
+  simp [timexOf, valueOf, hfu, hfv, timexOld]
 
 /-- the four paths of `parse_number_with_unit` and `get_result_from_regex` all end in `assemble` -/
 theorem space_is_assemble (cfg : Cfg) (value : Dec) (sp code : Str) (suf : Option Str)
@@ -123,8 +141,23 @@ theorem isTime_agrees (code : Str) :
 `RTV.WF.durationTimex` (Props/C10: it reads back as `N` of the unit), value the exact integer `N × seconds`. -/
 theorem assemble_integer (cfg : Cfg) (N : Nat) (sp : Str) (c : Nat) (rest : Str) (secs : Nat) (g : Bool)
     (hu : lookup cfg.unitMap sp = some (c :: rest)) (hv : lookup cfg.unitValueMap sp = some secs)
-    (hg : g = false ∨ N ≤ 1000 ∨ ¬ (c :: rest = sY ∨ c :: rest = sMON ∨ c :: rest = sW)) :
+    (hg : g = false ∨ N ≤ 1000 ∨ ¬ (c :: rest = sY ∨ c :: rest = sMON ∨ c :: rest = sW))
+    (hb : cfg.fixUnit = false ∨ (isDigit c = false ∧ c :: rest ≠ sWE ∧ c :: rest ≠ sWD)) :
     assemble cfg (some ⟨false, N, 1⟩) sp g = .ok (durationTimex N (c :: rest)) (.int ((N : Int) * secs)) := by
+  have ht : timexOf cfg (.int (N : Int)) c rest = some (durationTimex N (c :: rest)) := by
+    unfold timexOf
+    rcases hb with hb | ⟨hb1, hb2, hb3⟩
+    · simp only [hb, Bool.false_eq_true, if_false, timexOld, numStr, intStr_nat, durationTimex, isTime_agrees,
+        List.take, List.append_assoc]
+    · by_cases hf : cfg.fixUnit = true
+      · have hsp : splitCode (c :: rest) = none := by simp [splitCode, spanDigits, hb1]
+        simp only [hf, if_true, timexFixed, hsp, hb2, hb3, or_self, if_false, numStr, intStr_nat, durationTimex,
+          isTime_agrees, List.take, List.append_assoc]
+      · have hf' : cfg.fixUnit = false := by simpa using hf
+        simp only [hf', Bool.false_eq_true, if_false, timexOld, numStr, intStr_nat, durationTimex, isTime_agrees,
+          List.take, List.append_assoc]
+  have hval : valueOf cfg (.int (N : Int)) secs = some (.int ((N : Int) * secs)) := by
+    unfold valueOf; split <;> rfl
   unfold assemble
   simp only [hu, hv]
   have hguard : (g && Dbl.gt1000 ⟨false, N, 1⟩ && (c :: rest == sY || c :: rest == sMON || c :: rest == sW)) = false := by
@@ -137,18 +170,18 @@ theorem assemble_integer (cfg : Cfg) (N : Nat) (sp : Str) (c : Nat) (rest : Str)
         exact ⟨⟨fun h => hg (Or.inl h), fun h => hg (Or.inr (Or.inl h))⟩, fun h => hg (Or.inr (Or.inr h))⟩
       simp [this]
   rw [hguard]
-  simp only [Bool.false_eq_true, if_false, floatOrInt_nat, mulNum, numStr, intStr_nat, durationTimex, isTime_agrees,
-    List.take, List.append_assoc]
+  simp only [Bool.false_eq_true, if_false, floatOrInt_nat, ht, hval]
 
 /-- **"N unit" with a space, integral N below 2^53**: exactly one number, no suffix. No magnitude guard on this path. -/
 theorem space_integer_exact (cfg : Cfg) (coeff e : Nat) (sp : Str) (c : Nat) (rest : Str) (secs : Nat)
     (hN : coeff * 10 ^ e < 2 ^ 53)
-    (hu : lookup cfg.unitMap sp = some (c :: rest)) (hv : lookup cfg.unitValueMap sp = some secs) :
+    (hu : lookup cfg.unitMap sp = some (c :: rest)) (hv : lookup cfg.unitValueMap sp = some secs)
+    (hb : cfg.fixUnit = false ∨ (isDigit c = false ∧ c :: rest ≠ sWE ∧ c :: rest ≠ sWD)) :
     numberSpaceUnit cfg 1 ⟨false, coeff, (e : Int)⟩ (some sp) none =
       .ok (durationTimex (coeff * 10 ^ e) (c :: rest)) (.int (((coeff * 10 ^ e : Nat) : Int) * secs)) := by
   rw [space_is_assemble cfg _ sp _ _ hu]
   simp only [decimal_integer_exact coeff e hN, suffixAmount, addSuffix]
-  exact assemble_integer cfg _ sp c rest secs false hu hv (Or.inl rfl)
+  exact assemble_integer cfg _ sp c rest secs false hu hv (Or.inl rfl) hb
 
 /-- `float('123')`: a run of digits is its value, exactly, below 2^53 -/
 theorem floatOfStr_natStr (N : Nat) (hN : N < 2 ^ 53) : floatOfStr (natStr N) = some ⟨false, N, 1⟩ := by
@@ -166,11 +199,12 @@ theorem floatOfStr_natStr (N : Nat) (hN : N < 2 ^ 53) : floatOfStr (natStr N) = 
 1000 years / months / weeks are refused. -/
 theorem combined_integer_exact (cfg : Cfg) (N : Nat) (sp : Str) (c : Nat) (rest : Str) (secs : Nat) (hN : N < 2 ^ 53)
     (hu : lookup cfg.unitMap sp = some (c :: rest)) (hv : lookup cfg.unitValueMap sp = some secs)
-    (hg : N ≤ 1000 ∨ ¬ (c :: rest = sY ∨ c :: rest = sMON ∨ c :: rest = sW)) :
+    (hg : N ≤ 1000 ∨ ¬ (c :: rest = sY ∨ c :: rest = sMON ∨ c :: rest = sW))
+    (hb : cfg.fixUnit = false ∨ (isDigit c = false ∧ c :: rest ≠ sWE ∧ c :: rest ≠ sWD)) :
     numberCombinedUnit cfg (some (natStr N, sp)) none = .ok (durationTimex N (c :: rest)) (.int ((N : Int) * secs)) := by
   unfold numberCombinedUnit
   simp only [floatOfStr_natStr N hN, suffixAmount, addSuffix]
-  exact assemble_integer cfg N sp c rest secs true hu hv (Or.inr hg)
+  exact assemble_integer cfg N sp c rest secs true hu hv (Or.inr hg) hb
 
 /-- **the guard**: more than 1000 of a unit coded Y / MON / W → no result, on the combined path. -/
 theorem combined_guard (cfg : Cfg) (N : Nat) (sp code : Str) (hN : N < 2 ^ 53) (h1000 : 1000 < N)
@@ -195,21 +229,23 @@ theorem inexact_guard_dead (cfg : Cfg) (sp : Str) :
 
 /-- "a few weeks" = 3 weeks, for every spelling -/
 theorem inexact_is_three (cfg : Cfg) (sp : Str) (c : Nat) (rest : Str) (secs : Nat)
-    (hu : lookup cfg.unitMap sp = some (c :: rest)) (hv : lookup cfg.unitValueMap sp = some secs) :
+    (hu : lookup cfg.unitMap sp = some (c :: rest)) (hv : lookup cfg.unitValueMap sp = some secs)
+    (hb : cfg.fixUnit = false ∨ (isDigit c = false ∧ c :: rest ≠ sWE ∧ c :: rest ≠ sWD)) :
     inexactNumberUnit cfg (some sp) = .ok (durationTimex 3 (c :: rest)) (.int (3 * secs)) := by
   rw [inexact_guard_dead]
-  exact assemble_integer cfg 3 sp c rest secs false hu hv (Or.inl rfl)
+  exact assemble_integer cfg 3 sp c rest secs false hu hv (Or.inl rfl) hb
 
 /-- "an hour", "all day", a bare unit: amount 1 -/
 theorem an_unit_is_one (cfg : Cfg) (sp : Str) (c : Nat) (rest : Str) (secs : Nat)
-    (hu : lookup cfg.unitMap sp = some (c :: rest)) (hv : lookup cfg.unitValueMap sp = some secs) :
+    (hu : lookup cfg.unitMap sp = some (c :: rest)) (hv : lookup cfg.unitValueMap sp = some secs)
+    (hb : cfg.fixUnit = false ∨ (isDigit c = false ∧ c :: rest ≠ sWE ∧ c :: rest ≠ sWD)) :
     anUnit cfg (some (false, sp)) none = .ok (durationTimex 1 (c :: rest)) (.int (1 * secs)) ∧
     resultFromRegex cfg (some sp) false = .ok (durationTimex 1 (c :: rest)) (.int (1 * secs)) := by
   constructor
   · rw [an_is_assemble]; simp only [suffixAmount, addSuffix, Bool.false_eq_true, if_false]
-    exact assemble_integer cfg 1 sp c rest secs false hu hv (Or.inl rfl)
+    exact assemble_integer cfg 1 sp c rest secs false hu hv (Or.inl rfl) hb
   · rw [regex_is_assemble]; simp only [Bool.false_eq_true, if_false]
-    exact assemble_integer cfg 1 sp c rest secs false hu hv (Or.inl rfl)
+    exact assemble_integer cfg 1 sp c rest secs false hu hv (Or.inl rfl) hb
 
 /-! ### halves and quarters -/
 
@@ -254,7 +290,8 @@ the TIMEX carries `repr` of the binary64 `(2N+1)/2`, the value is the exact inte
 theorem space_half_exact (cfg : Cfg) (N : Nat) (sp w : Str) (c : Nat) (rest : Str) (secs : Nat) (hN : N < 2 ^ 51)
     (hu : lookup cfg.unitMap sp = some (c :: rest)) (hv : lookup cfg.unitValueMap sp = some secs)
     (hw : lookup cfg.doubleNumbers w = some ⟨false, 1, 2⟩)
-    (hs : secs % 2 = 0) (hs0 : 0 < secs) (hsecs : secs < 2 ^ 53) (hp : (2 * N + 1) * secs < 2 ^ 54) :
+    (hs : secs % 2 = 0) (hs0 : 0 < secs) (hsecs : secs < 2 ^ 53) (hp : (2 * N + 1) * secs < 2 ^ 54)
+    (hfu : cfg.fixUnit = false) (hfv : cfg.fixValue = false) :
     numberSpaceUnit cfg 1 ⟨false, N, 0⟩ (some sp) (some w) =
       .ok ([80] ++ (if isLessThanDay (c :: rest) then [84] else []) ++ reprDbl ⟨false, 2 * N + 1, 2 ^ 1⟩ ++ [c])
         (.int (((2 * N + 1) * (secs / 2) : Nat) : Int)) := by
@@ -268,7 +305,8 @@ theorem space_half_exact (cfg : Cfg) (N : Nat) (sp w : Str) (c : Nat) (rest : St
   have hf : floatOrInt ⟨false, 2 * N + 1, 2 ^ 1⟩ = .flt ⟨false, 2 * N + 1, 2 ^ 1⟩ := by
     have := floatOrInt_fraction false (2 * N + 1) 1 0 (by omega) (by omega)
     simpa using this
-  rw [hf, mul_half_exact N secs hs hs0 hsecs hp]
+  rw [hf]
+  simp only [timexOf, valueOf, hfu, hfv, Bool.false_eq_true, if_false, timexOld, mul_half_exact N secs hs hs0 hsecs hp]
   simp [numStr]
 
 /-- **"N unit and a quarter"** (N < 2^50): the amount handed to the tail is exactly the binary64 `(4N+1)/4`. -/
@@ -311,7 +349,7 @@ theorem fraction_reads_back :
     parseDuration (str "PT2.5H") = some ((25, 10), .H) ∧ parseDuration (str "P3.25D") = some ((325, 100), .D) ∧
     parseDuration (str "P0.5D") = some ((5, 10), .D) := by decide
 
-/-- **float arithmetic shows**: `1.15 days` is worth `99359.99999999999` seconds (1.15 × 86400 = 99360), and
+/-- **pre-fix regression witness** (tree before `fix: duration value`; `en` has `fixValue = false`) — float arithmetic shows: `1.15 days` is worth `99359.99999999999` seconds (1.15 × 86400 = 99360), and
 `4.35 hours` `15659.999999999998`. -/
 theorem float_value_inexact_witness :
     showRes (numberSpaceUnit en 1 ⟨false, 115000000000000, -14⟩ (some (str "days")) none) = some (str "P1.15D", str "99359.99999999999") ∧
@@ -339,7 +377,8 @@ theorem space_has_no_guard_witness :
     numberCombinedUnit en (some (str "1000.5", str "years")) none = .fail := by
   decide +kernel
 
-/-- **the unit letter is the first character of the unit code**: decade (`10Y`) → `P31`, fortnight (`2W`) → `P32`; a
+/-- **pre-fix regression witness** (tree before `fix: duration unit codes`; `en` has `fixUnit = false`) — the unit letter
+is the first character of the unit code: decade (`10Y`) → `P31`, fortnight (`2W`) → `P32`; a
 weekend (`WE`, two days long) → `P3W`; a weekday (`WD`) has no length: `KeyError`. -/
 theorem unit_first_character_witness :
     showRes (numberSpaceUnit en 1 ⟨false, 3, 0⟩ (some (str "decades")) none) = some (str "P31", str "946080000") ∧
@@ -347,6 +386,130 @@ theorem unit_first_character_witness :
     showRes (numberSpaceUnit en 1 ⟨false, 3, 0⟩ (some (str "weekends")) none) = some (str "P3W", str "518400") ∧
     parseDuration (str "P31") = none ∧
     (match numberSpaceUnit en 1 ⟨false, 5, 0⟩ (some (str "weekdays")) none with | .raises => true | _ => false) = true := by
+  decide +kernel
+
+/-! ## the repaired variants (`fix: duration unit codes`, `fix: duration value`) -/
+
+theorem natCast_mul_int (a b : Nat) : ((a : Int) * (b : Int)) = ((a * b : Nat) : Int) := by simp
+
+/-- **repaired TIMEX, ALL N**: a unit code `<k><U>` (`10Y`, `2W`, …) is multiplied out — the TIMEX is `P[T](N·k)<U>`, exactly
+`durationTimex (N * k) U` (Props/C10: it reads back as `N·k` of the unit `U`), the value stays `N × seconds`. -/
+theorem fixed_multiplied_code (cfg : Cfg) (N : Nat) (sp code : Str) (k cu : Nat) (ru : Str) (secs : Nat) (g : Bool)
+    (hf : cfg.fixUnit = true) (hu : lookup cfg.unitMap sp = some code) (hv : lookup cfg.unitValueMap sp = some secs)
+    (hs : splitCode code = some (k, cu :: ru)) (hb : cu :: ru ≠ sWE ∧ cu :: ru ≠ sWD)
+    (hg : g = false ∨ N ≤ 1000 ∨ ¬ (code = sY ∨ code = sMON ∨ code = sW)) :
+    assemble cfg (some ⟨false, N, 1⟩) sp g = .ok (durationTimex (N * k) (cu :: ru)) (.int ((N : Int) * secs)) := by
+  have hne : code ≠ [] := by intro h; rw [h] at hs; simp [splitCode, spanDigits] at hs
+  obtain ⟨c, rest, hc⟩ := List.exists_cons_of_ne_nil hne
+  subst hc
+  have ht : timexOf cfg (.int (N : Int)) c rest = some (durationTimex (N * k) (cu :: ru)) := by
+    unfold timexOf timexFixed
+    simp only [hf, if_true, hs, mulNum, Option.map_some, natCast_mul_int, numStr, intStr_nat, hb.1, hb.2, or_self, if_false,
+      durationTimex, isTime_agrees, List.take, List.append_assoc]
+  have hval : valueOf cfg (.int (N : Int)) secs = some (.int ((N : Int) * secs)) := by
+    unfold valueOf; split <;> rfl
+  unfold assemble
+  simp only [hu, hv]
+  have hguard : (g && Dbl.gt1000 ⟨false, N, 1⟩ && (c :: rest == sY || c :: rest == sMON || c :: rest == sW)) = false := by
+    rcases hg with hg | hg | hg
+    · simp [hg]
+    · have : Dbl.gt1000 ⟨false, N, 1⟩ = false := by simp [Dbl.gt1000]; omega
+      simp [this]
+    · have : (c :: rest == sY || c :: rest == sMON || c :: rest == sW) = false := by
+        simp only [Bool.or_eq_false_iff, beq_eq_false_iff_ne, ne_eq]
+        exact ⟨⟨fun h => hg (Or.inl h), fun h => hg (Or.inr (Or.inl h))⟩, fun h => hg (Or.inr (Or.inr h))⟩
+      simp [this]
+  rw [hguard]
+  simp only [Bool.false_eq_true, if_false, floatOrInt_nat, ht, hval]
+
+def s10Y : Str := [49, 48, 89]
+def s2W : Str := [50, 87]
+
+/-- **N decades, ALL N < 2^53** (repaired variant, "N decades" with a space): TIMEX `P(10N)Y` — it reads back as `10N`
+years — and with the table's length of a decade (ten years of 31536000 s) the value is `10N` years. -/
+theorem fixed_decades (cfg : Cfg) (N : Nat) (sp : Str) (hN : N < 2 ^ 53) (hf : cfg.fixUnit = true)
+    (hu : lookup cfg.unitMap sp = some s10Y) (hv : lookup cfg.unitValueMap sp = some 315360000) :
+    numberSpaceUnit cfg 1 ⟨false, N, 0⟩ (some sp) none = .ok (durationTimex (N * 10) [89]) (.int (((N * 10 : Nat) : Int) * 31536000)) ∧
+    parseDuration (durationTimex (N * 10) [89]) = some ((N * 10, 1), .Y) := by
+  refine ⟨?_, (duration_timex_reads_back (N * 10)).2.2.2.2.2.2⟩
+  rw [space_is_assemble cfg _ sp _ _ hu]
+  have hd := decimal_integer_exact N 0 (by simpa using hN)
+  simp only [Nat.pow_zero, Nat.mul_one, Int.natCast_zero] at hd
+  have hd' : Dbl.ofDec ⟨false, N, 0⟩ = some ⟨false, N, 1⟩ := hd
+  simp only [hd', suffixAmount, addSuffix]
+  rw [fixed_multiplied_code cfg N sp s10Y 10 89 [] 315360000 false hf hu hv (by decide) (by decide) (Or.inl rfl)]
+  have e : ((N : Int) * ((315360000 : Nat) : Int)) = (((N * 10 : Nat) : Int) * 31536000) := by
+    simp only [Int.natCast_mul]; omega
+  rw [e]
+
+/-- **N fortnights, ALL N < 2^53** (repaired variant): TIMEX `P(2N)W`, value `2N` weeks. -/
+theorem fixed_fortnights (cfg : Cfg) (N : Nat) (sp : Str) (hN : N < 2 ^ 53) (hf : cfg.fixUnit = true)
+    (hu : lookup cfg.unitMap sp = some s2W) (hv : lookup cfg.unitValueMap sp = some 1209600) :
+    numberSpaceUnit cfg 1 ⟨false, N, 0⟩ (some sp) none = .ok (durationTimex (N * 2) [87]) (.int (((N * 2 : Nat) : Int) * 604800)) ∧
+    parseDuration (durationTimex (N * 2) [87]) = some ((N * 2, 1), .W) := by
+  refine ⟨?_, (duration_timex_reads_back (N * 2)).2.2.2.2.1⟩
+  rw [space_is_assemble cfg _ sp _ _ hu]
+  have hd := decimal_integer_exact N 0 (by simpa using hN)
+  simp only [Nat.pow_zero, Nat.mul_one, Int.natCast_zero] at hd
+  have hd' : Dbl.ofDec ⟨false, N, 0⟩ = some ⟨false, N, 1⟩ := hd
+  simp only [hd', suffixAmount, addSuffix]
+  rw [fixed_multiplied_code cfg N sp s2W 2 87 [] 1209600 false hf hu hv (by decide) (by decide) (Or.inl rfl)]
+  have e : ((N : Int) * ((1209600 : Nat) : Int)) = (((N * 2 : Nat) : Int) * 604800) := by
+    simp only [Int.natCast_mul]; omega
+  rw [e]
+
+/-- **N weekends, ALL N** (repaired variant): the two-letter code is kept, TIMEX `P<N>WE`, value `N × seconds(weekend)`. -/
+theorem fixed_weekend (cfg : Cfg) (N : Nat) (sp : Str) (secs : Nat) (hf : cfg.fixUnit = true)
+    (hu : lookup cfg.unitMap sp = some sWE) (hv : lookup cfg.unitValueMap sp = some secs) :
+    assemble cfg (some ⟨false, N, 1⟩) sp false = .ok ([80] ++ natStr N ++ sWE) (.int ((N : Int) * secs)) := by
+  have ht : timexOf cfg (.int (N : Int)) 87 [69] = some ([80] ++ natStr N ++ sWE) := by
+    unfold timexOf timexFixed
+    have hsp : splitCode [87, 69] = none := by decide
+    have hl : isLessThanDay [87, 69] = false := by decide
+    simp [hf, hsp, hl, sWE, numStr, intStr_nat]
+  have hval : valueOf cfg (.int (N : Int)) secs = some (.int ((N : Int) * secs)) := by
+    unfold valueOf; split <;> rfl
+  unfold assemble
+  simp only [hu, hv, sWE, Bool.false_and, Bool.false_eq_true, if_false, floatOrInt_nat]
+  simp only [sWE] at ht
+  simp only [ht, hval]
+
+theorem reprQ_den_pos (x : Dbl) : 0 < (reprQ x).2 := by
+  unfold reprQ
+  simp only
+  split
+  · exact Nat.one_pos
+  · exact Nat.pow_pos (by decide)
+
+/-- **repaired value**: an `int` amount is multiplied exactly (any size); for a float amount `x`, when the decimal `repr(x)`
+denotes times the unit length is an integer `M` below 2^53, the value is that integer — no float product is involved. -/
+theorem fixed_value_exact (cfg : Cfg) (hf : cfg.fixValue = true) :
+    (∀ (v : Int) (k : Nat), valueOf cfg (.int v) k = some (.int (v * k))) ∧
+    (∀ (x : Dbl) (k M : Nat), x.neg = false → 0 < M → M < 2 ^ 53 → (reprQ x).1 * k = M * (reprQ x).2 →
+      valueOf cfg (.flt x) k = some (.int (M : Int))) := by
+  refine ⟨fun v k => by simp [valueOf, hf, mulNumFixed], ?_⟩
+  intro x k M hneg hM hM53 h
+  unfold valueOf mulNumFixed
+  simp only [hf, if_true, hneg]
+  have := ofQ_exact false ((reprQ x).1 * k) (reprQ x).2 M 0 (reprQ_den_pos x) hM hM53 (by simpa using h) (by omega) (Or.inl rfl)
+  rw [this]
+  simp [floatOrInt_nat]
+
+def enFixed : Cfg := cfgOf ("en-us".toList.map Char.toNat) enExtra enDn true true
+
+/-- the repaired variants on the regenerated English table: `1.15 days` = 99360 s, `4.35 hours` = 15660 s,
+`1774.8353 months`, decades / fortnights / weekends (also fractional and article forms), and the ordinary units unchanged -/
+theorem fixed_instances :
+    showRes (numberSpaceUnit enFixed 1 ⟨false, 115000000000000, -14⟩ (some (str "days")) none) = some (str "P1.15D", str "99360") ∧
+    showRes (numberSpaceUnit enFixed 1 ⟨false, 435000000000000, -14⟩ (some (str "hours")) none) = some (str "PT4.35H", str "15660") ∧
+    showRes (numberSpaceUnit enFixed 1 ⟨false, 17748353, -4⟩ (some (str "months")) none) = some (str "P1774.8353M", str "4600373097.6") ∧
+    showRes (numberSpaceUnit enFixed 1 ⟨false, 3, 0⟩ (some (str "decades")) none) = some (str "P30Y", str "946080000") ∧
+    showRes (numberSpaceUnit enFixed 1 ⟨false, 25, -1⟩ (some (str "decades")) none) = some (str "P25Y", str "788400000") ∧
+    showRes (numberSpaceUnit enFixed 1 ⟨false, 3, 0⟩ (some (str "fortnights")) none) = some (str "P6W", str "3628800") ∧
+    showRes (numberSpaceUnit enFixed 1 ⟨false, 3, 0⟩ (some (str "weekends")) none) = some (str "P3WE", str "518400") ∧
+    showRes (anUnit enFixed (some (true, str "fortnights")) none) = some (str "P1W", str "604800") ∧
+    showRes (numberSpaceUnit enFixed 1 ⟨false, 2, 0⟩ (some (str "hours")) (some (str "half"))) = some (str "PT2.5H", str "9000") ∧
+    showRes (numberSpaceUnit enFixed 1 ⟨false, 3, 0⟩ (some (str "months")) none) = some (str "P3M", str "7776000") := by
   decide +kernel
 
 /-! ## texts with several numbers: no merged-duration parser -/
